@@ -74,12 +74,12 @@ def ref_extract(s: str, resolve_packages: bool, replace_time_conditions: bool, _
         if ub:
             if replace_time_conditions:
                 if ub == "UB1":
-                    acc["fc"].add(932)
+                    acc["fc"].add("932")
                 elif ub == "UB2":
-                    acc["fc"].add(934)
+                    acc["fc"].add("934")
                 else:
-                    acc["fc"].update((932, 934))
-                    acc["rc"].update((492, 493))
+                    acc["fc"].update(("932", "934"))
+                    acc["rc"].update(("492", "493"))
             else:
                 acc["ub"].add(ub)
         elif pkg:
@@ -97,7 +97,7 @@ def ref_extract(s: str, resolve_packages: bool, replace_time_conditions: bool, _
             cat = ref_category(int(key))
             if cat is None:
                 return ("reject", key)
-            acc[cat].add(int(key))
+            acc[cat].add(key)  # as written: '007' and '7' are two keys (of the same number)
     return acc
 
 
@@ -107,10 +107,12 @@ def compare_extract(ctx, what: str, got: CategorizedKeyExtract, ref) -> None:
         if len(lst) != len(set(lst)):
             ctx.violation("extract-duplicates", f"{what}: {attr} = {lst} lists a key more than once")
         if numeric:
-            want = [str(k) for k in sorted(ref[name])]
-            if lst != want:
-                kind = "extract-order" if sorted(lst, key=lambda x: (len(x), x)) == want or set(lst) == set(want) else "extract-partition"
-                ctx.violation(kind, f"{what}: {attr} = {lst}, expected {want} (every key once, ascending numeric order)")
+            want = sorted(ref[name], key=int)
+            numbers = [int(k) for k in lst] if all(k.isdigit() for k in lst) else None
+            if set(lst) != set(want) or numbers is None:
+                ctx.violation("extract-partition", f"{what}: {attr} = {lst}, expected the keys {want}")
+            elif numbers != sorted(numbers):
+                ctx.violation("extract-order", f"{what}: {attr} = {lst} is not in ascending numeric order (expected e.g. {want})")
         else:
             if set(lst) != ref[name]:
                 ctx.violation("extract-partition", f"{what}: {attr} = {lst}, expected the members {sorted(ref[name])}")
@@ -126,6 +128,8 @@ def atom_c18(rng):
         return "[UB%d]" % rng.randint(1, 3)
     if r < 0.2:
         return "[%d]" % rng.choice([0, 1000, 1500, 1999, 2500, 3000, 99999])  # in no documented range
+    if r < 0.26:
+        return "[%s]" % rng.choice(["007", "08", "0501", "0950", "01", "0499", "02000", "00900"])  # leading zeros: the same numbers, other spellings
     if r < 0.5:
         return "[%d]" % rng.choice([1, 499, 500, 900, 901, 999, 2000, 2499, 9, 10, 11, 99, 100, 101])
     return "[%d]" % rng.choice([rng.randint(1, 499), rng.randint(500, 900), rng.randint(901, 999), rng.randint(2000, 2499), rng.randint(1, 30)])
@@ -291,6 +295,7 @@ async def run(ctx):
     if ctx.shard == 0:
         # fixed cases that every run must contain whatever the seed: unknown package, out-of-range keys, nested package, all flags
         for s, resolve, replace in [("[1]U[4711P]", True, False), ("Muss [4711P0..1] O [2]", True, True), ("[1]U[4711P]", False, False), ("[0]U[1]", False, False), ("[1]U[1000]", False, True), ("[2500]", False, False),
+                                    ("[53] U [007]", False, False), ("[502] [0501] U [0950][951]", False, False), ("[7]U[007]U[07]", False, False),
                                     ("[3P]U[UB3]", True, True), ("[3P]U[UB3]", True, False), ("[3P]U[UB3]", False, True), ("[123P][10P]", True, True), ("[499]U[500]U[900]U[901]U[999]U[2000]U[2499]", False, False)]:
             await check_extraction(ctx, {"s": s, "resolve": resolve, "replace": replace})
             ctx.count("extract_cases")
